@@ -114,7 +114,7 @@ def run_harness(stims, name, timeout=900):
     return tp, restarts
 
 
-def run_free(stim, name, watchdog_ms=4000):
+def run_free(stim, name, watchdog_ms=15000):
     wd = workdir(PID)
     tp = os.path.join(wd, name + ".trace.ndjson")
     if os.path.exists(tp):
